@@ -96,6 +96,8 @@ def cases(draw: st.DrawFn) -> dict[str, Any]:
         "t": draw(st.sampled_from(["unix", "tcp"])),
         "max_connections": m,
         "choices": draw(st.lists(st.sampled_from([1, 0, 2, 3, 4, 5]), min_size=6, max_size=40)),
+        # clients that hang up instead of waiting when they find themselves queued behind max_connections
+        "abandon": [] if m is None else draw(st.sampled_from([[], [], [], [1], [2], [1, 2], [n_clients - 1]])),
     }
 
 
@@ -182,6 +184,13 @@ def run_case(case: dict[str, Any]) -> Outcome:
                     tr = TcpTransport(sock)
                 socks[ci] = sock
                 connected[ci] = True
+                if ci in case.get("abandon", []) and gates.is_queued(ci):
+                    import time as _t
+
+                    _t.sleep(0.03)  # let the listener accept and park the connection behind the limit
+                    tr.close()
+                    gates.client_abandoned(ci)
+                    return
                 logs: list[Any] = []
                 cm = RpcConnection(protocol, tr, on_log=logs.append)
                 proxy = cm.__enter__()
@@ -239,8 +248,10 @@ def run_case(case: dict[str, Any]) -> Outcome:
     for ci, e in sorted(client_errors.items()):
         out.fail(f"client_failed/{t}/{type(e).__name__}", f"[{tag}] client {ci} ended with {type(e).__name__}: {e}; schedule trace {gates.trace}")
     # (1) each connection observes what it observes when served alone
+    if gates.abandoned:
+        out.label("abandoned_while_queued")
     for ci in range(n):
-        if ci in client_errors:
+        if ci in client_errors or ci in gates.abandoned:
             continue
         for k, call in enumerate(scripts[ci]):
             kind = methods[call["mid"]]["kind"]
